@@ -72,6 +72,7 @@ def handleWire (w : WSt) (ws : List String) : Option (WSt × String) :=
   | ["mon_cn", "exempt_open", sid] => sid.toNat?.map fun s => (exemptOpen w s, "ok")
   | ["mon_cn", "target", n] => n.toNat?.map fun n => (apiTarget w n, "ok")
   | ["mon_cn", "expect", cls, sid] => sid.toNat?.map fun s => (H2V.Spec.Verdict.expect w cls s, "ok")
+  | ["mon_cn", "probe"] => some (H2V.Spec.Verdict.atProbe w, "ok")
   | ["mon_cn", "verdict"] => let (w', vs) := H2V.Spec.Verdict.verdict w; some (w', showViols vs)
   | ["mon_cn", "panic"] => some (w, showViols H2V.Spec.Verdict.panicked)
   | ["mon_cn", "polled", sw, pr] => let (w', vs) := H2V.Spec.Verdict.polled w (sw == "1") (pr == "1"); some (w', showViols vs)
